@@ -193,6 +193,11 @@ func (e *Engine) verifyFuncMode(fn *ssa.Function, cfg SolverCfg, mode string) *F
 	if len(checked) > 0 {
 		per = secs / float64(len(checked))
 	}
+	type pending struct {
+		idx int
+		ob  *Obligation
+	}
+	var todo []pending
 	for _, ob := range vc.obs {
 		if ob.Term == "true" {
 			res.Obs = append(res.Obs, &ObResult{Ob: ob, Status: "folded", Solver: "generator-constant-folding"})
@@ -207,11 +212,26 @@ func (e *Engine) verifyFuncMode(fn *ssa.Function, cfg SolverCfg, mode string) *F
 		}
 		ci++
 		r := &ObResult{Ob: ob, Status: st, Solver: "z3-new", Seconds: per}
-		if st != "unsat" {
-			// decide individually, racing all solvers, with model
-			r = raceSingle(vc, ob, cfg, base+"."+sanitize(ob.Kind)+fmt.Sprint(ob.idx))
-		}
 		res.Obs = append(res.Obs, r)
+		if st != "unsat" {
+			todo = append(todo, pending{len(res.Obs) - 1, ob})
+		}
+	}
+	// obligations the incremental pass did not discharge are decided individually (racing all solvers, with
+	// model), a few at a time
+	if len(todo) > 0 {
+		sem := make(chan struct{}, 3)
+		var wg sync.WaitGroup
+		for _, pd := range todo {
+			wg.Add(1)
+			sem <- struct{}{}
+			go func(pd pending) {
+				defer wg.Done()
+				defer func() { <-sem }()
+				res.Obs[pd.idx] = raceSingle(vc, pd.ob, cfg, base+"."+sanitize(pd.ob.Kind)+fmt.Sprint(pd.ob.idx))
+			}(pd)
+		}
+		wg.Wait()
 	}
 	// vacuity: preconditions satisfiable
 	res.PreSat = e.checkPreSat(vc, cfg, base)
